@@ -199,3 +199,158 @@ def pools_from_soup(top):
     f = lambda s, d: sorted(x for x in s if x) or d
     return dict(names=f(names, ['div']), classes=f(classes, ['x']), ids=f(ids, ['a']), attrs=f(attrs, ['title']),
                 values=sorted(values) or ['x'], texts=f(texts, ['x']))
+
+
+# ------------------------------------------------------------------ AST generator (for the reference oracle)
+KEYWORDS = ['root', 'empty', 'first-child', 'last-child', 'only-child', 'first-of-type', 'last-of-type', 'only-of-type']
+
+
+def q(v):
+    """quote a string value"""
+    out = '"'
+    for c in v:
+        if c in '"\\':
+            out += '\\' + c
+        elif c in '\n\r\f\t' or ord(c) < 0x20:
+            out += '\\%x ' % ord(c)
+        else:
+            out += c
+    return out + '"'
+
+
+def show_compound(cp):
+    s = ''
+    t = cp.get('type')
+    if t is not None:
+        pf, name = t
+        s += ('' if pf is None else pf + '|') + (name if name == '*' else sv.escape(name))
+    for i in cp.get('ids', []):
+        s += '#' + sv.escape(i)
+    for c in cp.get('classes', []):
+        s += '.' + sv.escape(c)
+    for (pf, name, op, value, flag) in cp.get('attrs', []):
+        s += '[' + ('' if pf is None else pf + '|') + sv.escape(name)
+        if op is not None:
+            s += op + q(value) + ('' if flag is None else ' ' + flag)
+        s += ']'
+    for ps in cp.get('pseudos', []):
+        k = ps[0]
+        if k == 'nth':
+            _, kind, a, b, of = ps
+            s += f':{kind}({a}n{"+" if b >= 0 else "-"}{abs(b)}' + ('' if of is None else ' of ' + show_list(of)) + ')'
+        elif k in ('not', 'is'):
+            s += f':{ps[2] if len(ps) > 2 else k}({show_list(ps[1])})'
+        elif k == 'has':
+            s += ':has(' + ', '.join(('' if comb == ' ' else comb + ' ') + show_complex(cx) for comb, cx in ps[1]) + ')'
+        elif k == 'contains':
+            s += (':-soup-contains-own(' if ps[1] else ':-soup-contains(') + ', '.join(q(t) for t in ps[2]) + ')'
+        else:
+            s += ':' + k
+    return s
+
+
+def show_complex(cx):
+    s = show_compound(cx[0])
+    for comb, cp in cx[1:]:
+        s += (' ' if comb == ' ' else f' {comb} ') + show_compound(cp)
+    return s
+
+
+def show_list(sl):
+    return ', '.join(show_complex(cx) for cx in sl)
+
+
+class AGen:
+    def __init__(self, rnd, names, classes, ids, attrs, values, texts=None, prefixes=None, feats=('core',), ascii_ci=True):
+        self.r = rnd
+        self.names, self.classes, self.ids, self.attrs, self.values = names, classes, ids, attrs, values
+        self.texts = texts or ['x']
+        self.prefixes = prefixes or []
+        self.feats = set(feats)
+
+    def type_sel(self):
+        r = self.r
+        name = r.choice(self.names) if r.random() < 0.75 else '*'
+        if name != '*' and 'case' in self.feats and r.random() < 0.3:
+            name = r.choice([name.upper(), name.title(), name.swapcase()])
+        pf = None
+        if 'ns' in self.feats and r.random() < 0.55:
+            pf = r.choice(self.prefixes + ['*', '', 'nope'])
+        return (pf, name)
+
+    def attr(self):
+        r = self.r
+        name = r.choice(self.attrs)
+        if 'case' in self.feats and r.random() < 0.3:
+            name = r.choice([name.upper(), name.title()])
+        pf = None
+        if 'ns' in self.feats and r.random() < 0.5:
+            pf = r.choice(self.prefixes + ['*', '', 'nope'])
+        if r.random() < 0.25:
+            return (pf, name, None, '', None)
+        op = r.choice(['=', '~=', '|=', '^=', '$=', '*=', '!=', '=', '^=', '$=', '*='])
+        v = r.choice(self.values) if r.random() < 0.85 else r.choice(['', 'zz', ' '])
+        flag = r.choice([None, None, None, 'i', 's'])
+        if 'case' in self.feats and v.isascii() and r.random() < 0.4:
+            v = r.choice([v.upper(), v.lower(), v.swapcase()])
+        if flag == 'i' and not v.isascii():
+            flag = None
+        return (pf, name, op, v, flag)
+
+    def pseudo(self, depth):
+        r = self.r
+        pool = ['kw'] * 4 + ['nth'] * 3 + (['logic'] * 5 if depth > 0 else [])
+        if 'contains' in self.feats:
+            pool += ['contains'] * 5 + ['kw_empty'] * 2
+        k = r.choice(pool)
+        if k == 'kw':
+            return (r.choice(KEYWORDS),)
+        if k == 'kw_empty':
+            return ('empty',)
+        if k == 'contains':
+            return ('contains', r.random() < 0.4, [r.choice(self.texts) for _ in range(r.choice([1, 1, 2]))])
+        if k == 'nth':
+            kind = r.choice(['nth-child', 'nth-last-child', 'nth-of-type', 'nth-last-of-type'])
+            a = r.choice([0, 1, 2, 3, -1, -2, -3, 4, -4, 5])
+            b = r.choice([0, 1, 2, 3, -1, -2, -3, 4, 5, -5, 6])
+            of = None
+            if 'child' in kind and depth > 0 and r.random() < 0.3:
+                of = self.slist(0)
+            return ('nth', kind, a, b, of)
+        name = r.choice(['not', 'is', 'where', 'matches', 'has', 'not', 'is'])
+        if name == 'has':
+            return ('has', [(r.choice([' ', '>', '+', '~', ' ']), self.complex(depth - 1)) for _ in range(r.choice([1, 1, 2]))])
+        if name == 'not':
+            return ('not', self.slist(depth - 1))
+        return ('is', self.slist(depth - 1), name)
+
+    def compound(self, depth):
+        r = self.r
+        cp = {'ids': [], 'classes': [], 'attrs': [], 'pseudos': []}
+        if r.random() < 0.6:
+            cp['type'] = self.type_sel()
+        n = r.choice([0, 1, 1, 2]) if 'type' in cp else r.choice([1, 1, 2])
+        for _ in range(n):
+            k = r.random()
+            if k < 0.2:
+                cp['classes'].append(r.choice(self.classes))
+            elif k < 0.3:
+                cp['ids'].append(r.choice(self.ids))
+            elif k < 0.6:
+                cp['attrs'].append(self.attr())
+            else:
+                cp['pseudos'].append(self.pseudo(depth))
+        return cp
+
+    def complex(self, depth):
+        cx = [self.compound(depth)]
+        for _ in range(self.r.choice([0, 0, 0, 1, 1, 2])):
+            cx.append((self.r.choice([' ', '>', '+', '~']), self.compound(depth)))
+        return cx
+
+    def slist(self, depth):
+        return [self.complex(depth) for _ in range(self.r.choice([1, 1, 1, 2, 3]))]
+
+    def selector(self, depth=2):
+        sl = self.slist(depth)
+        return show_list(sl), sl
